@@ -149,7 +149,8 @@ def rv_programs(ctx, bad, thorough):
     pats = [p for p in pats if all(t in RV_TYPES for t in p[3])]
     npat = 400 if thorough else 24
     if npat < len(pats):
-        always = [p for p in pats if ":self_loop:" in p[0]][:4]
+        always = [p for p in pats if ":self_loop:" in p[0]][:4] + \
+                 [p for p in pats if any(a in p[0] for a in (":cross_loop:", ":swap_loop:", "tail:rotate:", "tail:swap:"))]
         rest = [p for p in pats if p not in always]
         pats = always + rng.sample(rest, max(0, npat - len(always)))
     for key, mk, fn, ptys in pats:
